@@ -25,6 +25,26 @@ NEEDS = {
  "C09-b6": "same pooled trace_post slip as C08-b6, produced independently",
  "C10-a6": "full unscaled power bounding with upper_power != lower_power and a non-zero depressing part (lower_power ignored)",
  "C10-b6": "a reduction that is not the identity on a single slice (damped / clipped sum) and exactly one part on a side",
+ "C11-a6": "MSTDP constructed without batch_reduction (documented default: sum) and batch size > 1",
+ "C11-b6": "MSTDPET with a per-sample reward tensor whose entries share one sign in a call (guards test the index sets, not the joined parts)",
+ "C12-a6": "MaxRateClassifier restored into a target whose previous assignments differ (occurrences counted from the stale assignments)",
+ "C12-b6": "CAReducer: the observation counter is no longer part of the state dict; source and target have seen different numbers of observations",
+ "C13-a6": "strict=False record with constraints of both signs and more dims than the constraints need: a size-changing dt / duration assignment is refused",
+ "C13-b6": "an empty tensor with two or more dimensions that violates a constraint is accepted and reported valid",
+ "C14-a6": "CumulativeTraceReducer: dt assigned after construction (the cached decay is recomputed from the old step time)",
+ "C14-b6": "RecurrentSerial run at one batch size, every component resized through batchsz, layer.clear(), run again (stale feedback buffer)",
+ "C15-a6": "one STDP trainer, two cells sharing a neuron group with equal post-side rates and a different lr_pre: trace_post is pooled",
+ "C15-b6": "a monitor aliased from the pool is not entered into the requesting cell's cell.monitors (MSTDPET reads through it)",
+ "C16-a6": "a post-position Clamping / Normalization built with prepend=True (or always_call=True): the keyword is dropped one level down",
+ "C16-b6": "a one-sided Hook (only a prehook or only a posthook) accepts a second register()",
+ "C17-a6": "RecurrentSerial built with exactly one of the two input transforms",
+ "C17-b6": "ALIF.clear() resets the voltage to reset_v instead of rest_v (reset_v != rest_v)",
+ "C18-a6": "two cells of one layer (Biclique / RecurrentSerial) on one delay-adjusted trainer with different spike trains (pool tag uses the cell-relative path)",
+ "C18-b6": "DelayAdjustedKernelSTDP with a non-additive batch reduction (amax), batch >= 2, same-sign rates, a causal pair in one sample and an acausal one in another",
+ "C19-a6": "online encoder with an explicit refrac that is a multiple of a non-dyadic step time (0.5 // 0.1 == 4.0)",
+ "C19-b6": "steps assigned through the setter after construction (written to an attribute nobody reads)",
+ "C20-a6": "victor_purpura_pair_dist with cost given as the Python float inf and trains of different spike counts",
+ "C20-b6": "LogNormal.variance in float32 for a small scale (<= 5e-3): exp(s^2) - 1 cancels catastrophically",
 }
 for k, v in NEEDS.items():
     mp = f"/verif/seeded/{k}/meta.json"
